@@ -14,6 +14,9 @@ pub mod c11;
 pub mod c13;
 pub mod c15;
 pub mod c16;
+pub mod c17;
+pub mod c18;
+pub mod c19;
 
 pub fn run<C: Suite>(ctx: &mut Ctx) {
     match ctx.prop.clone().as_str() {
@@ -30,6 +33,9 @@ pub fn run<C: Suite>(ctx: &mut Ctx) {
         "C13" => c13::run::<C>(ctx),
         "C15" => c15::run::<C>(ctx),
         "C16" => c16::run::<C>(ctx),
+        "C17" => c17::run::<C>(ctx),
+        "C18" => c18::run::<C>(ctx),
+        "C19" => c19::run::<C>(ctx),
         p => panic!("unknown property {p}"),
     }
 }
